@@ -27,7 +27,9 @@ LISTED_CODE = 2001
 LISTED_CODE2 = -32000
 UNLISTED_CODE = 2002
 
-EXC_CLASSES = {'conn': SimConnError, 'timeout': SimTimeout, 'timeout_base': TimeoutError, 'oserror': OSError}
+EXC_CLASSES = {'conn': SimConnError, 'timeout': SimTimeout, 'timeout_base': TimeoutError, 'oserror': OSError,
+               # client-side verdicts on a reply can be listed too: the next attempt's reply is then judged afresh
+               'identity': pjrpc.exceptions.IdentityError, 'exception': Exception}
 
 # outcome -> (weight for single, weight for batch)
 OUTCOMES = [
@@ -69,8 +71,8 @@ def draw_strategy(ch: Choices) -> Dict[str, Any]:
     return {
         'backoff': draw_backoff(ch),
         'codes': ch.choice([[LISTED_CODE], None, [], [LISTED_CODE, LISTED_CODE2]], 'strategy.codes'),
-        'exceptions': ch.choice([['conn'], None, [], ['conn', 'timeout'], ['timeout_base'], ['oserror']],
-                                'strategy.exceptions'),
+        'exceptions': ch.choice([['conn'], None, [], ['conn', 'timeout'], ['timeout_base'], ['oserror'], ['identity'],
+                                 ['exception'], ['conn', 'identity']], 'strategy.exceptions'),
     }
 
 
